@@ -367,7 +367,7 @@ def run(tier: str) -> int:
         "two reads of the clock never return the same value",
         "the dependencies a preparer declares are a function of the spec",
     ]
-    ck.prove()
+    ck.prove(extractors=["CacheFacts"])
     drv = LeanDriver("C16")
     batch: list = []
     r = rng("c16")
@@ -376,7 +376,7 @@ def run(tier: str) -> int:
         ck.count("corpus")
         check_history(ck, batch, case["n"], case["history"])
 
-    n_hist = 400 if tier == "quick" else 20000
+    n_hist = 1500 if tier == "quick" else 20000
     for _ in range(n_hist):
         n = r.choice([3, 3, 4, 5])
         check_history(ck, batch, n, gen_history(r, n, r.randint(2, 12)))
@@ -397,7 +397,17 @@ def run(tier: str) -> int:
                                    "ranks, plain deletes) x turn placements {0,1,2} after each operation"
         ck.leanchecker()
     ck.cov["exhaustive"] = exhaustive
+    def widen(ck2):
+        """proof or correspondence broke without a failing input so far: search harder (oracle only)"""
+        r2 = rng("c16-widen")
+        for _ in range(6000):
+            n = r2.choice([3, 4, 5])
+            check_history(ck2, [], n, gen_history(r2, n, r2.randint(2, 14)))
+            if ck2.violations:
+                return
+
     return ck.finish(
+        widen=widen,
         rule="random histories of 2-12 offer/delete operations over 3-5 resources with ranked dependency sets, "
              "same/new/old versions, plain/versioned/stale deletes, 0-3 loop turns after each operation, then run to "
              "idle and a probe phase; non-trivial = at least 3 operations and some declared dependency; distinct by history",
